@@ -193,7 +193,7 @@ class Gen:
         kind = "new"
         r = rng.random()
         if self.budget <= 0 or r < 0.08:
-            kind = rng.choice(["old", "old", "missing"]) if self.files else "missing"
+            kind = rng.choice(["old", "old", "missing", "dir"]) if self.files else "missing"
         if kind == "new":
             self.budget -= 1
             target = rng.choice(DIRS) + "f%d.zone" % len(self.files)
@@ -201,9 +201,12 @@ class Gen:
                 target += "x"
         elif kind == "old":
             target = rng.choice(sorted(self.files))
+        elif kind == "dir":
+            # a directory of the tree (or the scratch directory): File::open succeeds, reading fails
+            target = os.path.dirname(rng.choice(sorted(self.files))) if rng.random() < 0.7 else ""
         else:
             target = rng.choice(DIRS) + "missing.zone"
-        relp = os.path.relpath(target, here or ".")
+        relp = os.path.relpath(target or ".", here or ".")
         rep_target = (os.path.dirname(reported) + "/" + relp) if os.path.dirname(reported) else relp
         # the directive
         text = rng.choice([b"$INCLUDE", b"$INCLUDE", b"$include"]) + zfgen.sep(rng, st, False)
@@ -230,6 +233,12 @@ class Gen:
             self.end = "err=open:%s:%d:%s" % (hx(reported.encode()), line, hx(rep_target.encode()))
             self.dead = True
             self.flat = None
+            return text, True
+        if kind == "dir":
+            self.end = "err=io:%s" % hx(rep_target.encode())
+            self.dead = True
+            self.flat = None
+            self.features.add("include-directory")
             return text, True
         if kind == "old":
             # a file parsed a second time (or cyclically) under another context: not predicted here
